@@ -78,7 +78,7 @@ def check_prog(ctx, r, prog, n_rand):
 
 
 def run(ctx):
-    ctx.rule = ("Remote<T> for T in {the contract, dyn Interface<Error=..,assoc..> for each interface} x owned/borrowed x hostile and random address strings; "
+    ctx.rule = ("Remote<T> for T in {the contract (plain and generic instance), dyn Interface<Error=..,assoc..> for each interface} x owned/borrowed x hostile and random address strings; "
                 "expected text {\"addr\":<json string>} from an independent escaper; non-trivial+distinct = distinct (type-parameter class, non-empty address)")
     ctx.assumptions = ["addresses are built with Addr::unchecked"]
     fam = ctx.family("general")
@@ -89,6 +89,10 @@ def run(ctx):
         return [check_prog(ctx, r, p, n) for p in progs]
     for l in fam.each_bin(per_bin):
         bases += l
+    gen = ctx.family("generic")
+    for l in gen.each_bin(per_bin):
+        bases += l
+    ctx.cov["generic_programs"] = len(gen.progs)
     if any(b != bases[0] for b in bases):
         ctx.violate("schema-depends-on-program", "schema of Remote differs between programs", {})
     ctx.cov["programs"] = len(fam.progs)
